@@ -133,13 +133,16 @@ def strat(fam):
     if fam == "malformed":
         return malformed()
     if fam == "printparse":
-        return st.fixed_dictionaries({"fam": st.just("printparse"), "n": st.one_of(st.integers(0, 1100), st.integers(0, 2 ** 70), st.sampled_from(
+        return st.fixed_dictionaries({"fam": st.just("printparse"), "n": st.one_of(st.integers(0, 1100), st.integers(0, 2 ** 70),
+                                                                                   # sizes whose two-decimal print loses nothing
+                                                                                   st.builds(lambda a, e, b: a * 10 ** max(0, 3 * e - 2) if not b else (a * 1024 ** e) // 4, st.integers(100, 99999), st.integers(1, 6), st.booleans()),
+                                                                                   st.sampled_from(
             [999, 1000, 1023, 1024, 10 ** 6, 2 ** 20, 10 ** 9])), "si": st.booleans()})
     return st.fixed_dictionaries({"fam": st.just("cfg"), "reserved": st.none() | sizes(), "mode": st.sampled_from(["age", "cutoff-date"]),
                                   "dur": st.none() | durations(), "date": dates(), "enabled": st.booleans(),
                                   "imm": st.booleans(), "mut": st.booleans(),
                                   # other documented [storage] keys next to the parsed ones (configuration.rst shows readonly together with reserved_space)
-                                  "readonly": st.sampled_from([None, None, True, False]), "bad_reserved": st.sampled_from([None, None, None, "10 megs", "1.5G", "-5", "5 5", "G"])})
+                                  "readonly": st.sampled_from([None, None, True, False]), "bad_reserved": st.sampled_from([None, None, None, "10 megs", "1,5G", "1.46 kiB", "-5", "5 5", "G"])})
 
 
 def run_shard(spec, ctx):
@@ -163,10 +166,17 @@ def ref_duration(s):
 
 
 def ref_size(s):
-    m = re.fullmatch(r"(\d+)\s*([KMGTPE]?)(I?)(B?)", norm(s).upper())
+    m = re.fullmatch(r"(\d+)(?:\.(\d+))?\s*([KMGTPE]?)(I?)(B?)", norm(s).upper())
     if not m:
         return None
-    n, k, i, b = m.groups()
+    n, frac, k, i, b = m.groups()
+    mult = 1 if (i and not k) else (SIZE_MULT_I[k] if i else SIZE_MULT[k])
+    if frac is not None:
+        # a decimal fraction ("1.50 kB", what the node itself prints): not a documented spelling either, so rejection is fine; if it is
+        # read, then as the whole number of bytes it denotes (and never when it denotes none)
+        import fractions
+        v = fractions.Fraction(n + "." + frac) * mult
+        return Either(int(v)) if v.denominator == 1 else None
     if i and not k:
         # "31i" / "31iB": a binary marker without a prefix.  Not a documented spelling, but the parser's own table gives it
         # multiplier 1 (the only reading it could have), so both rejecting it and reading it as n bytes are accepted.
@@ -238,11 +248,16 @@ def run_case(case, ctx):
         n = case["n"]
         printed = abbreviate_space(n, SI=case["si"])
         r = call(parse_abbreviated_size, printed)
-        exact = n < 1024
+        # what the printed string denotes: exactly n again (the print lost nothing), another whole number of bytes (rounded print), or no whole number
+        import fractions
+        mo = re.fullmatch(r"(\d+(?:\.\d+)?) ([kMGTPE]?)(i?)B", printed)
+        den = fractions.Fraction(mo.group(1)) * ((SIZE_MULT_I if mo.group(3) else SIZE_MULT)[mo.group(2).upper()]) if mo else None
+        exact = den is not None and den == n
         if r[0] == "ok":
-            ctx.check(r[1] == n, "print-parse-different", "abbreviate_space(%d)=%r parses back as %r" % (n, printed, r[1]))
+            ctx.check(den is not None and den.denominator == 1 and r[1] == int(den), "print-parse-different", "abbreviate_space(%d)=%r parses back as %r%s" % (
+                n, printed, r[1], "" if den is None else ", it denotes %s bytes" % den))
         else:
-            ctx.check(not exact, "print-parse-rejected", "abbreviate_space(%d)=%r is exact but parse_abbreviated_size rejects it (%r)" % (n, printed, r[1]))
+            ctx.check(not exact, "print-parse-rejected", "abbreviate_space(%d)=%r denotes exactly that many bytes but parse_abbreviated_size rejects it (%r)" % (n, printed, r[1]), big=n >= 1024)
         ctx.note(sig=(n, case["si"]), nontrivial=True, classes=["print-parse", "print-exact" if exact else "print-lossy"], sample={"n": n, "printed": printed, "parsed": repr(r)})
     else:
         run_cfg(case, ctx)
